@@ -73,6 +73,14 @@ func prefixesOf(names []string) []string {
 		for k := 1; k <= len(n); k++ {
 			set[n[:k]] = true
 		}
+		// the first letters in the other case: a different prefix (names are matched as they are written)
+		for k := 1; k <= len(n) && k <= 2; k++ {
+			if u := strings.ToUpper(n[:k]); u != n[:k] {
+				set[u] = true
+			} else if lw := strings.ToLower(n[:k]); lw != n[:k] {
+				set[lw] = true
+			}
+		}
 	}
 	var out []string
 	for p := range set {
@@ -258,6 +266,7 @@ func c07Entry(e *gen.Entry, seeds []string, c *report.Collector, l *report.Local
 			pos := run.PosAt(src, p.pos)
 			root := e.Mk()
 			var exp []model.Cand
+			var labelBS *schema.BlockSchema
 			bc := model.BodyAt(root, body, pos)
 			switch p.what {
 			case "label":
@@ -285,6 +294,7 @@ func c07Entry(e *gen.Entry, seeds []string, c *report.Collector, l *report.Local
 					exp = nil
 				} else {
 					exp = model.LabelValues(bs, p.label, p.prefix)
+					labelBS = bs
 				}
 			case "block-type", "attr-name":
 				// the item under the cursor belongs to the body that holds it
@@ -329,6 +339,20 @@ func c07Entry(e *gen.Entry, seeds []string, c *report.Collector, l *report.Local
 				cands, _ := r.Val.(lang.Candidates)
 				got := candLabels(cands)
 				l.Count("comparisons", 1)
+				// a label candidate is described by the body its value selects on its own, where there is one
+				if p.what == "label" && labelBS != nil {
+					for _, cd := range cands.List {
+						own, ok := labelBS.DependentBody[schema.NewSchemaKey(schema.DependencyKeys{Labels: []schema.LabelDependent{{Index: p.label, Value: cd.Label}}})]
+						if !ok {
+							continue
+						}
+						l.Count("label_descriptions", 1)
+						if cd.Detail != own.Detail || cd.Description.Value != own.Description.Value {
+							c.Add(&report.Violation{Clause: "label:described-by-other-body", Site: "label", Check: "c07", SchemaID: e.ID, Files: []report.FileSpec{{Path: "/p0", Name: "main.tf", Text: p.text}}, Query: report.J(q),
+								Detail: fmt.Sprintf("%s: label candidate %q carries detail %q / description %q, the body selected by that label alone has %q / %q\nfile:\n%s", q, cd.Label, cd.Detail, cd.Description.Value, own.Detail, own.Description.Value, p.text)})
+						}
+					}
+				}
 				if fmt.Sprint(got) != fmt.Sprint(exp) {
 					clause := "candidates:mismatch"
 					gs, es := map[model.Cand]int{}, map[model.Cand]bool{}
@@ -448,7 +472,6 @@ func C07(tier string) int {
 		BiteCounters: []string{"comparisons", "acceptance_checks", "nontrivial"},
 	})
 }
-
 
 // c07Population: bodies whose declarable population is 0, 1, 99, 100, 101 and 250 (attributes, block types,
 // both, with count/for_each): whatever the limit lets through is sorted by name and free of duplicates, and
